@@ -462,3 +462,101 @@ def require_guard(ctx, rep, clause, f, construct, nids, required, why, node=None
 def eq_atom(x, y, truth=True):
     """predicate for the atom x == y (either order) with the given truth"""
     return lambda a: a[0] == "eq" and a[3] is truth and {a[1].split(".")[-1] if False else a[1], a[2]} == {x, y}
+
+
+# ------------------------------------------------------------------ a computed value that is bound to a local and never used
+def dead_local_stores(ctx, f):
+    """[(assign node, name)] `name = <call>` where no path from the assignment reads `name` before the function ends or the
+    name is rebound: the update was applied to a local instead of the object it was meant for"""
+    cfg = cfg_of(f)
+    out = []
+    nested_reads = set()
+    for g in f.nested.values():
+        for y in ast.walk(g.node):
+            if isinstance(y, ast.Name):
+                nested_reads.add(y.id)
+    for y in walk_shallow(f.node, include_lambda=True):
+        if isinstance(y, ast.Lambda):
+            for z in ast.walk(y):
+                if isinstance(z, ast.Name):
+                    nested_reads.add(z.id)
+    for n in cfg.nodes:
+        if not (n.kind == "stmt" and isinstance(n.ast, ast.Assign) and len(n.ast.targets) == 1 and isinstance(n.ast.targets[0], ast.Name)
+                and isinstance(n.ast.value, ast.Call)):
+            continue
+        v = n.ast.targets[0].id
+        if v.startswith("_") or v in nested_reads or v in ("self",):
+            continue
+        # forward search: a read of v before any rebinding
+        seen, todo, used = set(), [s_ for s_, l in cfg.succ[n.id]], False
+        while todo and not used:
+            m = todo.pop()
+            if m in seen:
+                continue
+            seen.add(m)
+            nd = cfg.nodes[m]
+            reads = [y for y in cfg.node_walk(m) if isinstance(y, ast.Name) and y.id == v and isinstance(y.ctx, ast.Load)]
+            if reads:
+                used = True
+                break
+            rebinds = nd.kind == "stmt" and isinstance(nd.ast, ast.Assign) and any(isinstance(t, ast.Name) and t.id == v for t in nd.ast.targets)
+            if rebinds:
+                continue
+            todo += [s_ for s_, l in cfg.succ[m]]
+        if not used:
+            out.append((n.ast, v))
+    return out
+
+
+DEAD_STORE_OK = {
+    ("AddJitterOp", "L"): "the factorisation is attempted for its LinAlgError; the factor itself is recomputed by the caller",
+}
+
+
+def dead_store_clause(ctx, rep, clause, relpaths, what):
+    """no value computed by a call is bound to a local and then dropped (in the files the property anchors in)"""
+    n = 0
+    for f in sorted(ctx.P.functions.values(), key=lambda f: f.qualname):
+        if f.module.relpath not in relpaths:
+            continue
+        n += 1
+        for a, v in dead_local_stores(ctx, f):
+            if (f.name, v) in DEAD_STORE_OK:
+                continue
+            rep.bad(clause, "dead_store", f"{f.short}: the value bound to `{v}` is used", f, a,
+                    f"`{U(a)[:70]}` computes a value that no path reads afterwards: {what}")
+    rep.put(n > 0, clause, "dead_store", f"no computed value is dropped in {len(relpaths)} anchored file(s)", None, None, f"{n} functions swept")
+
+
+# ------------------------------------------------------------------ one mutable object stored in two places
+def shared_mutable_stores(ctx, f):
+    """[(name, [store nodes])] a local bound once to a fresh list / dict / set that is stored into two different long-lived
+    places (attribute containers, constructor arguments) without a copy: later in-place growth of one shows up in the other"""
+    from ..engine import local_defs
+    out = []
+    fresh = {}
+    for x in walk_shallow(f.node):
+        if isinstance(x, ast.Assign) and len(x.targets) == 1 and isinstance(x.targets[0], ast.Name):
+            v = x.value
+            if isinstance(v, (ast.List, ast.Dict, ast.Set, ast.ListComp, ast.DictComp, ast.SetComp)) or (
+                    isinstance(v, ast.Call) and isinstance(v.func, ast.Name) and v.func.id in ("list", "dict", "set")):
+                fresh.setdefault(x.targets[0].id, []).append(x)
+    for name, defs in fresh.items():
+        if len(defs) != 1 or len(local_defs(f, name)) != 1:
+            continue
+        sinks = []
+        for x in walk_shallow(f.node):
+            if isinstance(x, ast.Assign) and isinstance(x.value, ast.Name) and x.value.id == name:
+                for t in x.targets:
+                    root = t
+                    while isinstance(root, (ast.Subscript, ast.Attribute)):
+                        root = root.value
+                    if isinstance(t, (ast.Subscript, ast.Attribute)) and isinstance(root, ast.Name) and root.id == "self":
+                        sinks.append(x)
+            if isinstance(x, ast.Call):
+                for k in x.keywords:
+                    if isinstance(k.value, ast.Name) and k.value.id == name and k.arg in ("metrics", "results", "data", "config", "state"):
+                        sinks.append(x)
+        if len(sinks) >= 2:
+            out.append((name, sinks))
+    return out
